@@ -92,6 +92,8 @@ CallDowngrade(t) == /\ pc[t] = "idle" /\ held[t] = "X" /\ nops[t] < MaxOps
 SetVersion(t, v) == /\ pc[t] = "idle" /\ held[t] = "X"
                     /\ newv' = [newv EXCEPT ![t] = v]
                     /\ UNCHANGED <<w, pc, cur, held, nops, C, rel, oldv>> /\ KeepS /\ KeepO /\ KeepG
+\* (once per section when model checking)
+CallSetVersion(t, v) == newv[t] = VInc(oldv[t]) /\ SetVersion(t, v)
 CallGetVersion(t) == /\ WithOpt /\ pc[t] = "idle" /\ held[t] = "none" /\ nops[t] < MaxOps
                      /\ Goto(t, "GV_load") /\ Count(t)
                      /\ UNCHANGED <<w, cur, held, C, rel>> /\ KeepS /\ KeepX /\ KeepO /\ KeepG
@@ -218,7 +220,7 @@ Ret(t) == /\ pc[t] = "ret" /\ Goto(t, "idle")
 Call(t) == \/ \E m \in Modes : CallLock(t, m) \/ CallTryLock(t, m)
            \/ CallUnlock(t) \/ CallUpgrade(t) \/ CallDowngrade(t)
            \/ CallGetVersion(t) \/ CallVerify(t) \/ CallCVerify(t) \/ CallPrepare(t)
-           \/ \E v \in SetVers : newv[t] = VInc(oldv[t]) /\ SetVersion(t, v)     \* (once per section when model checking)
+           \/ \E v \in SetVers : CallSetVersion(t, v)
 OpStep(t) == \/ \E m \in Modes : LLoad(t, m) \/ LCas(t, m) \/ TLoad(t, m) \/ TCas(t, m)
              \/ USub(t) \/ UXor(t) \/ UStore(t) \/ UpLoad(t) \/ UpCas(t) \/ DnStore(t)
              \/ GVLoad(t) \/ VFence(t) \/ VLoad(t) \/ P1(t) \/ P2(t) \/ PCas(t)
